@@ -2,7 +2,7 @@
 //
 //   clm.pack <file>...            file = <relpath-hex>=<content>      content = <hex>[+<n zero bytes>]  (sparse tail)
 //       CreateArchive from the files in the given order, reopen, list, stream and extract every member
-//       -> err | ok-big <archive length> | ok <archive bytes> <count> [<name-hex>:<size>:<stream bytes>:<extracted wav bytes>]...
+//       -> err | ok-big <archive length> | ok <archive bytes> <count> [<name-hex>:<size>:<stream bytes>:<wav header hex>/<wav payload>]...
 //   clm.open <content> <op>,<op>,...
 //       open the bytes as a CLM archive (one long-lived object), run the calls in order; then run every call again on a
 //       fresh object and report whether each outcome is the same
@@ -17,6 +17,9 @@
 #include <sys/stat.h>
 #include <unistd.h>
 #include <fcntl.h>
+#include <ftw.h>
+#include <csignal>
+#include <sys/wait.h>
 using namespace drv;
 using namespace OP2Utility;
 
@@ -66,9 +69,14 @@ std::string drain(Stream::BidirectionalReader& r) {
 std::string tryStream(Archive::ClmFile& clm, std::size_t i) {
   try { auto s = clm.OpenStream(i); return drain(*s); } catch (const std::bad_alloc&) { return "err:alloc"; } catch (const std::exception&) { return "err"; }
 }
+// an extracted WAV is reported as <everything before the payload, hex>/<payload>, the payload being its last `size` bytes
+std::string splitWav(const std::string& w, uint64_t size) {
+  if (w.size() < size) return "short/" + showBytes(w);
+  return hexEncode(w.substr(0, w.size() - size)) + "/" + showBytes(w.substr(w.size() - size));
+}
 std::string tryExtract(Archive::ClmFile& clm, std::size_t i, const std::string& dir) {
   std::string out = dir + "/x" + std::to_string(i) + ".wav";
-  try { clm.ExtractFile(i, out); return showBytes(readFile(out)); } catch (const std::bad_alloc&) { return "err:alloc"; } catch (const std::exception&) { return "err"; }
+  try { clm.ExtractFile(i, out); return splitWav(readFile(out), clm.GetSize(i)); } catch (const std::bad_alloc&) { return "err:alloc"; } catch (const std::exception&) { return "err"; }
 }
 bool safeName(const std::string& n) { return !n.empty() && n != "." && n != ".." && n.find('/') == std::string::npos; }
 
@@ -81,7 +89,7 @@ std::string runOp(Archive::ClmFile& clm, const std::string& op, const std::strin
       case 'n': return hexEncode(clm.GetName(static_cast<std::size_t>(toU64(rest))));
       case 'z': return std::to_string(clm.GetSize(static_cast<std::size_t>(toU64(rest))));
       case 's': { auto s = clm.OpenStream(static_cast<std::size_t>(toU64(rest))); return drain(*s); }
-      case 'x': { std::string d = freshDir(); std::string out = d + "/x.wav"; clm.ExtractFile(static_cast<std::size_t>(toU64(rest)), out); return showBytes(readFile(out)); }
+      case 'x': { std::string d = freshDir(); std::string out = d + "/x.wav"; std::size_t i = static_cast<std::size_t>(toU64(rest)); clm.ExtractFile(i, out); return splitWav(readFile(out), clm.GetSize(i)); }
       case 'i': return std::to_string(clm.GetIndex(hexDecode(rest)));
       case 'h': return clm.Contains(hexDecode(rest)) ? "1" : "0";
       case 'S': { Archive::ArchiveFile& base = clm; auto s = base.OpenStream(hexDecode(rest)); return drain(*s); }
@@ -106,8 +114,9 @@ std::string runOp(Archive::ClmFile& clm, const std::string& op, const std::strin
 }
 }
 
-DRV_CMD(clm_pack, "clm.pack") {
-  std::string dir = freshDir();
+namespace {
+// writes the files under <dir>/in, calls CreateArchive in the given order, returns the archive path
+std::string packFiles(const Args& a, const std::string& dir) {
   mkdir((dir + "/in").c_str(), 0700); mkdir((dir + "/out").c_str(), 0700); mkdir((dir + "/x").c_str(), 0700);
   std::vector<std::string> paths;
   for (auto& arg : a) {
@@ -124,6 +133,55 @@ DRV_CMD(clm_pack, "clm.pack") {
   }
   std::string arc = dir + "/out/out.clm";
   Archive::ClmFile::CreateArchive(arc, paths);
+  return arc;
+}
+}
+
+namespace {
+std::string packReport(const Args& a, const std::string& dir);
+int rmOne(const char* p, const struct stat*, int, struct FTW*) { return remove(p); }
+}
+
+// clm.packbig <seconds> <file>... : clm.pack in a child of its own with its own watchdog; whatever the child wrote
+// (possibly gigabytes) is deleted before the command returns
+DRV_CMD(clm_packbig, "clm.packbig") {
+  unsigned secs = static_cast<unsigned>(toU64(need(a, 0)));
+  Args files(a.begin() + 1, a.end());
+  std::string dir = freshDir();
+  int fds[2]; if (pipe(fds)) return "harness-error";
+  fflush(stdout);
+  pid_t pid = fork();
+  if (pid < 0) return "harness-error";
+  if (pid == 0) {
+    close(fds[0]);
+    alarm(secs);
+    std::string r;
+    try { r = packReport(files, dir); }
+    catch (const BadOp&) { r = "bad-op"; }
+    catch (const std::bad_alloc&) { r = "err:alloc"; }
+    catch (const std::exception&) { r = "err"; }
+    r.push_back('\n');
+    ssize_t w = write(fds[1], r.data(), r.size()); (void)w;
+    _exit(0);
+  }
+  close(fds[1]);
+  std::string out; char buf[4096]; ssize_t n;
+  while ((n = read(fds[0], buf, sizeof buf)) > 0) out.append(buf, static_cast<std::size_t>(n));
+  close(fds[0]);
+  int status = 0; waitpid(pid, &status, 0);
+  nftw(dir.c_str(), rmOne, 64, FTW_DEPTH | FTW_PHYS);
+  if (WIFEXITED(status) && WEXITSTATUS(status) == 0 && !out.empty() && out.back() == '\n') { out.pop_back(); if (out == "bad-op") throw BadOp(); return out; }
+  if (WIFSIGNALED(status) && WTERMSIG(status) == SIGALRM) return "hang";
+  return "fault:child";
+}
+
+DRV_CMD(clm_pack, "clm.pack") {
+  return packReport(a, freshDir());
+}
+
+namespace {
+std::string packReport(const Args& a, const std::string& dir) {
+  std::string arc = packFiles(a, dir);
   uint64_t len = fileSize(arc);
   if (len > (uint64_t(1) << 26)) return "ok-big " + std::to_string(len);
   std::string out = "ok " + showBytes(readFile(arc));
@@ -132,6 +190,18 @@ DRV_CMD(clm_pack, "clm.pack") {
   for (std::size_t i = 0; i < clm.GetCount(); ++i) {
     out += " " + hexEncode(clm.GetName(i)) + ":" + std::to_string(clm.GetSize(i)) + ":" + tryStream(clm, i) + ":" + tryExtract(clm, i, dir + "/x");
   }
+  return out;
+}
+}
+
+// clm.packlist <file>... : as clm.pack, but reports only the listing and the streams: ok <count> [<name-hex>:<size>:<stream bytes>]...
+DRV_CMD(clm_packlist, "clm.packlist") {
+  std::string dir = freshDir();
+  std::string arc = packFiles(a, dir);
+  Archive::ClmFile clm(arc);
+  std::string out = "ok " + std::to_string(clm.GetCount());
+  for (std::size_t i = 0; i < clm.GetCount(); ++i)
+    out += " " + hexEncode(clm.GetName(i)) + ":" + std::to_string(clm.GetSize(i)) + ":" + tryStream(clm, i);
   return out;
 }
 
